@@ -126,8 +126,10 @@ def run_case(adoc, c, kind):
     flt = LCDDocFilter(make_config(c))
     if kind == "random":
       _FILTERS[key] = flt
+  from ..core import AltContext, alt_for
   try:
-    flt.process(doc)
+    with AltContext(alt_for(("lcd", key, len(json.dumps(adoc, sort_keys=True))))):
+      flt.process(doc)
   except Exception as ex:  # pylint: disable=broad-except
     rec["raised"] = type(ex).__name__
     return rec
